@@ -61,7 +61,7 @@ def main():
             sh(["git", "reset", "-q"], cwd=wt)
             # from here on the patch is re-taken from the worktree so that apply -R works
             if rc == 0:
-                patch2 = os.path.join(src, "patch.rebased.diff")
+                patch2 = os.path.join("/tmp", "patch.rebased.%d.diff" % os.getpid())
                 open(patch2, "w").write(sh(["git", "diff"], cwd=wt)[1])
                 patch = patch2
         assert rc == 0, "patch does not apply: " + out
@@ -136,12 +136,16 @@ def main():
         old = json.load(open(os.path.join(dst, "meta.json")))
         res["earlier_results"] = (old.get("earlier_results") or []) + [{"repo_head": old.get("repo_head"), "detected_by": old.get("detected_by"),
                                   "checks": {c: {"detected": r.get("detected"), "violation_lines": r.get("violation_lines")} for c, r in (old.get("checks") or {}).items()}}]
-    if confirmed:
+    same = os.path.abspath(src) == os.path.abspath(dst)
+    if confirmed or same:
         os.makedirs(dst, exist_ok=True)
-        shutil.copyfile(patch, os.path.join(dst, "patch.diff"))
-        if os.path.isdir(os.path.join(dst, "demo")):
-            shutil.rmtree(os.path.join(dst, "demo"))
-        shutil.copytree(demo_dir, os.path.join(dst, "demo"))
+        if not same:
+            shutil.copyfile(patch, os.path.join(dst, "patch.diff"))
+            if os.path.isdir(os.path.join(dst, "demo")):
+                shutil.rmtree(os.path.join(dst, "demo"))
+            shutil.copytree(demo_dir, os.path.join(dst, "demo"))
+        elif patch != os.path.join(dst, "patch.diff"):
+            shutil.copyfile(patch, os.path.join(dst, "patch.diff"))    # the patch was rebased on the current head
         json.dump(res, open(os.path.join(dst, "meta.json"), "w"), indent=1)
     print(json.dumps({k: res.get(k) for k in ("name", "confirmed", "suite_passes_with_patch", "demo_fails_with_patch",
                                               "demo_passes_without_patch", "detected_by")}, indent=1))
